@@ -24,6 +24,7 @@ type InvWriter struct {
 type Clause struct {
 	COnly bool // speaks about the C-side representation (struct fields): not used at cgo call sites
 	Slow  bool // only checked in the thorough tier (takes longer than the quick per-obligation budget)
+	AssumedPreserved bool // loop invariant: checked on entry, ASSUMED (not proved) to be preserved by the body; reported as an assumption
 	Long  bool // known to need more solver time than most: its obligations get a four times larger budget
 	Label string
 	Src   string
@@ -457,6 +458,10 @@ func parseClause(s, pos string) (Clause, error) {
 		if strings.HasSuffix(c.Label, " c-only") {
 			c.Label = strings.TrimSuffix(c.Label, " c-only")
 			c.COnly = true
+		}
+		if strings.HasSuffix(c.Label, " assumed-preserved") {
+			c.Label = strings.TrimSuffix(c.Label, " assumed-preserved")
+			c.AssumedPreserved = true
 		}
 		if strings.HasSuffix(c.Label, " long") {
 			c.Label = strings.TrimSuffix(c.Label, " long")
